@@ -90,7 +90,7 @@ def hist_argsets(run):
         sets += [["-family", "hist", "-mode", "random", "-n", "9", "-seed", str(run.seed * 100 + i)] for i in range(4)]
         return sets, 6
     sets = [["-family", "hist", "-mode", "fixed", "-only", "/real"], ["-family", "hist", "-mode", "fixed", "-only", "/fake"]]
-    sets += [["-family", "hist", "-mode", "random", "-n", "75", "-seed", str(run.seed * 1000 + i)] for i in range(20)]
+    sets += [["-family", "hist", "-mode", "random", "-n", "100", "-seed", str(run.seed * 1000 + i)] for i in range(24)]
     return sets, min(10, C.NPROC)
 
 
